@@ -13,8 +13,10 @@ MinRank(du) == CHOOSE m \in {du[i] : i \in DOMAIN du} : \A i \in DOMAIN du : m <
 TReset  == IsEvent("Reset") /\ fac' = <<>> /\ out' = "ok" /\ last' = NoLast
 TFactor == /\ IsEvent("Factor") /\ WF(Ev.A) /\ IsSquare(Ev.A) /\ Ev.A.r >= 1
            /\ fac' = Put(fac, Ev.o, Ev.A) /\ LStep("Factor", "ok", Ev.r, TRUE)
-TCopy   == /\ IsEvent("Copy") /\ Ev.o \in DOMAIN fac
-           /\ fac' = Put(fac, Ev.o2, fac[Ev.o]) /\ LStep("Copy", "ok", "ok", TRUE)
+\* copy construction (o2 fresh) and assignment (o2 live): afterwards o2 answers for the matrix of o
+TCopy   == /\ IsEvent("Copy") /\ Ev.o \in DOMAIN fac /\ Ev.o2 # Ev.o
+           /\ (Ev.how = "assign") = (Ev.o2 \in DOMAIN fac)
+           /\ fac' = Put(fac, Ev.o2, fac[Ev.o]) /\ LStep("Copy", "ok", Ev.r, TRUE)
 
 \* pivot vector is a permutation; L unit lower / U upper triangular (exact zeros and ones); L.U = A(piv,:);
 \* det = Det(A) with the sign of the permutation; the factors of a singular matrix show a (near-)zero pivot
